@@ -860,7 +860,10 @@ func (st *tunnelClientStream) finishStream(err error, trailers metadata.MD) bool
 	}
 	defer st.cancel()
 	st.ch.removeStream(st.streamID)
-	st.receiver.close()
+	// Closing the receiver is what lets a blocked RecvMsg return the final
+	// result. Trailers must be published before that, so they are visible
+	// as soon as the caller observes the end of the stream.
+	defer st.receiver.close()
 
 	st.metaMu.Lock()
 	defer st.metaMu.Unlock()
